@@ -157,11 +157,19 @@ class ChargeMonitor(Base):
             exp += self.terms[n]["coef"] * tot[n]
         return exp, tot
 
-    def check_state(self, J, t, where):
+    def check_state(self, J, t, where, psi=None, mu=None):
         g = self.geo
         out = g.outflow(J)
         exp, tot = self.expected(t)
         scale = max(float(g.abs_flow(J).max()), float(np.abs(exp).max()), 1e-300)
+        # rounding floor of the balance itself: an edge current is a difference of O(|psi|^2 / e) and O(|mu| / e) terms, so
+        # a cell sum carries ~eps * sum_j s_ij / e_ij * (|psi|^2 + |mu|) whatever the net flow (matters once a drive is
+        # switched off and the residual currents decay towards zero)
+        floor = 0.0
+        if psi is not None:
+            mag = float(np.max(np.abs(psi))) ** 2 + (float(np.max(np.abs(mu))) if mu is not None else 0.0)
+            floor = 32 * np.finfo(float).eps * float(g.abs_flow(mag / g.elen).max())
+        scale = scale + floor / self.GATE
         res = np.abs(out - exp)
         self.count("cell_balance_checks", g.n)
         self.count("states_checked")
@@ -193,7 +201,7 @@ class ChargeMonitor(Base):
         if res is None:
             return
         J = np.asarray(res.supercurrent) + np.asarray(res.normal_current)
-        self.check_state(J, ctx["time"], {"stage": ctx["stage"], "step": ctx["step"], "update": ctx["index"]})
+        self.check_state(J, ctx["time"], {"stage": ctx["stage"], "step": ctx["step"], "update": ctx["index"]}, psi=np.asarray(res.psi), mu=np.asarray(res.mu))
 
 
 # ----------------------------------------------------------------------------
